@@ -116,6 +116,16 @@ class Translator(object):
             n = n['inner'][0]
         return n
 
+    NARROW_UNSIGNED = {'unsigned short': 16, 'unsigned char': 8, 'guint16': 16, 'guint8': 8, 'uint16_t': 16, 'uint8_t': 8,
+                       'gushort': 16, 'guchar': 8, 'unsigned short int': 16}
+
+    def narrow_unsigned_bits(self, t):
+        for key in ('desugaredQualType', 'qualType'):
+            v = (t.get(key) or '').replace('const ', '').strip()
+            if v in self.NARROW_UNSIGNED:
+                return self.NARROW_UNSIGNED[v]
+        return None
+
     def qualtype(self, n):
         return n.get('type', {}).get('qualType', '')
 
@@ -143,6 +153,16 @@ class Translator(object):
         k = n.get('kind')
         if k == 'ImplicitCastExpr' and n.get('castKind') == 'NullToPointer':
             return const(None)
+        if k in ('ImplicitCastExpr', 'CStyleCastExpr') and n.get('castKind') == 'IntegralCast':
+            # conversion to a narrow unsigned type (8 / 16 bit) is reduction modulo 2**bits (C11 6.3.1.3); wider conversions
+            # are left mathematical (no overflow modelling, stated in the trusted base)
+            bits = self.narrow_unsigned_bits(n.get('type', {}))
+            src = self.narrow_unsigned_bits((n.get('inner') or [{}])[0].get('type', {}))
+            if bits and not (src and src <= bits):
+                inner_e = self.expr(n['inner'][0])
+                if isinstance(inner_e, pyast.Constant) and isinstance(inner_e.value, int) and 0 <= inner_e.value < 2 ** bits:
+                    return inner_e
+                return pyast.BinOp(left=inner_e, op=pyast.Mod(), right=const(2 ** bits))
         if k in ('ImplicitCastExpr', 'ParenExpr', 'ExprWithCleanups', 'ConstantExpr'):
             if k == 'ConstantExpr' and 'value' in n:
                 try:
